@@ -139,6 +139,33 @@ impl<'a, I: Iterator<Item = Item>, F: StreamFilter + 'a> CompactionStream<'a, I,
     }
 }
 
+impl<'a, I: Iterator<Item = Item>, F: StreamFilter + 'a> CompactionStream<'a, I, F> {
+    /// Drains the following versions of the given key, stopping at the first tombstone.
+    fn drain_key_values(&mut self, key: &UserKey) -> crate::Result<()> {
+        loop {
+            let Some(next) = self.inner.next_if(|kv| {
+                if let Ok(kv) = kv {
+                    let expired = kv.key.user_key == key && !kv.is_tombstone();
+
+                    if expired {
+                        if let Some(watcher) = &mut self.dropped_callback {
+                            watcher.on_dropped(kv);
+                        }
+                    }
+
+                    expired
+                } else {
+                    true
+                }
+            }) else {
+                return Ok(());
+            };
+
+            next?;
+        }
+    }
+}
+
 impl<'a, I: Iterator<Item = Item>, F: StreamFilter + 'a> Iterator for CompactionStream<'a, I, F> {
     type Item = Item;
 
@@ -199,13 +226,17 @@ impl<'a, I: Iterator<Item = Item>, F: StreamFilter + 'a> Iterator for Compaction
                     let drop_weak_tombstone = peeked.key.value_type == ValueType::Value
                         && head.key.value_type == ValueType::WeakTombstone;
 
+                    if drop_weak_tombstone {
+                        // NOTE: The weak tombstone cancels out the (expired) value(s) below it,
+                        // but an older tombstone in the tail needs to stay, because it may still
+                        // shadow versions of this key in lower levels
+                        fail_iter!(self.drain_key_values(&head.key.user_key));
+                        continue;
+                    }
+
                     // NOTE: Next item is expired,
                     // so the tail of this user key is entirely expired, so drain it all
                     fail_iter!(self.drain_key(&head.key.user_key));
-
-                    if drop_weak_tombstone {
-                        continue;
-                    }
                 }
             } else if head.is_tombstone() && self.evict_tombstones {
                 continue;
